@@ -144,7 +144,7 @@ class CacheMachine(RuleBasedStateMachine):
         if STATS is not None:
             STATS.fail(key, list(self.history), f"step {self.history[-1]}: {detail}")
 
-    @rule(si=st.integers(0, 6), who=st.sampled_from(["same", "same", "restart", "second", "other", "other"]), behaviour=st.sampled_from(["newer", "newer", "same", "older", "uptodate", "uptodate", "errstatus", "garbage", "transport"]))
+    @rule(si=st.sampled_from([0, 0, 0, 0, 0, 1, 2, 3, 4, 4, 5, 6]), who=st.sampled_from(["same", "same", "restart", "second", "other", "other"]), behaviour=st.sampled_from(["newer", "newer", "same", "older", "uptodate", "uptodate", "errstatus", "garbage", "transport"]))
     def request(self, si, who, behaviour):
         si = self.servers_allowed[si % len(self.servers_allowed)]
         server = SERVERS[si]
@@ -590,7 +590,7 @@ def run(ctx):
     if len(servers) != 7:
         ctx.exclude("history machine restricted to servers with distinct ORG/FID (open cross-server finding)")
     n = ctx.scale(12, 150)
-    steps = ctx.scale(6, 10)
+    steps = ctx.scale(8, 12)
     ctx.pmap(_machine_worker, [(n, steps, ctx.sub_seed("m", i), servers) for i in range(16)])
     ctx.pmap(_crash_worker, [(pre, variant) for pre in (False, True) for variant in ("plain", "flushed", "partial")])
     # schedules: probe the number of gates per thread with one serial run, then enumerate
